@@ -23,3 +23,6 @@ func VerifSetGate(f func(name string)) {
 	}
 	verifGate.Store(&f)
 }
+
+// VerifGate lets sibling packages (hsmsss, secs1) reach the same gate function.
+func VerifGate(name string) { vgate(name) }
